@@ -18,7 +18,7 @@ var c12Blocks = []absDay{
 	{Date: "2021/01/26"},
 	{Date: "2021/01/25", Entries: []absIng{{"k/r1", -1}, {"cal", -2}}},
 	{Date: "2021/01/24", Entries: []absIng{{"k/r1", 1}, {"u", 1}, {"k/r1", 0.5}}, Notes: []absNote{{"mood", "ok"}}},
-	{Date: "2021/01/27", Entries: []absIng{{"fish & chips <x> 'y'", 1}, {"k", 2}}, Notes: []absNote{{"", "50% done"}}},
+	{Date: "2021/01/27", Entries: []absIng{{"fish & chips <x> 'y'", 1}, {"k", 2}, {"k/", 1}, {"k//r1", 1}}, Notes: []absNote{{"", "50% done"}}},
 	c12BigBlock(),
 	// negative zeros: a negative quantity of a food with a zero coefficient, a zero quantity of a food with negative ones
 	// (the first number this day prints is a negative zero: a literal -0 quantity)
